@@ -238,3 +238,34 @@ Proof.
 Qed.
 
 End Orders.
+
+(** ** Cancellations: only of orders from the agent's own list that are Active when it looks *)
+Lemma partition_live_spec e a pc : forall orders c keep drop c',
+  partition_live e a orders pc c = Ok (keep, drop, c') ->
+  forall id, In id keep \/ In id drop -> In id orders /\ order_status e a id = Ok SActive.
+Proof.
+  induction orders as [|id0 r IH]; intros c keep drop c' H id Hin; cbn [partition_live] in H.
+  - inv H. destruct Hin as [[]|[]].
+  - destruct (order_status e a id0) as [st|] eqn:Es; [|discriminate]. cbn [rbind] in H.
+    destruct (status_eqb st SActive) eqn:Ea.
+    + apply status_eqb_eq in Ea. subst st. destruct (c_f32 c) as [k c1].
+      destruct (partition_live e a r pc c1) as [[[keep1 drop1] c2]|] eqn:Ep; [|discriminate]. cbn [rbind] in H.
+      destruct (f32_draw_lt k pc); inv H.
+      * destruct Hin as [Hk|[->|Hd]]; [| split; [left; reflexivity | assumption] |];
+          (destruct (IH _ _ _ _ Ep id) as [A B]; [tauto | split; [right; assumption | assumption]]).
+      * destruct Hin as [[->|Hk]|Hd]; [split; [left; reflexivity | assumption] | |];
+          (destruct (IH _ _ _ _ Ep id) as [A B]; [tauto | split; [right; assumption | assumption]]).
+    + destruct (IH _ _ _ _ H id Hin) as [A B]. split; [right; assumption | assumption].
+Qed.
+
+Theorem cancel_live_orders_spec e c a orders pc e1 c1 keep :
+  cancel_live_orders e c a orders pc = Ok (e1, c1, keep) ->
+  exists drop, en_queue e1 = en_queue e ++ map (MCancel a) drop /\ en_market e1 = en_market e /\
+    (forall id, In id keep \/ In id drop -> In id orders /\ order_status e a id = Ok SActive).
+Proof.
+  unfold cancel_live_orders. destruct (partition_live e a orders pc c) as [[[keep0 drop] c2]|] eqn:Ep; [|discriminate]. cbn. intros H; inv H.
+  exists drop. split; [|split; [|eapply partition_live_spec; eassumption]].
+  - generalize e. clear Ep. induction drop as [|id r IH]; intros e0; cbn [fold_left map]; [rewrite app_nil_r; reflexivity|].
+    rewrite IH. cbn [push_event en_queue]. rewrite <- app_assoc. reflexivity.
+  - generalize e. clear Ep. induction drop as [|id r IH]; intros e0; cbn [fold_left]; [reflexivity|]. rewrite IH. reflexivity.
+Qed.
